@@ -134,6 +134,12 @@ class G:
             kinds = ["insert"]
         elif path is None:
             path = rng.choice(files)
+            if who == HUMAN and self.gated("initial_positional"):
+                # known finding: a human edit of a still-untracked file is invisible to checkpoints
+                r = self.w.raw_git(self.repo, "ls-files", "-z")
+                tracked = [f for f in files if f in set(r.out.split("\0"))]
+                if tracked and path not in tracked:
+                    path = rng.choice(tracked)
         old = self.w.read(self.repo, path)
         new, desc = gen.mutate(rng, self.ex, old, who, self.hz, kinds=kinds,
                                pos_classes=[pos] if pos else None, max_block=max_block)
@@ -144,7 +150,7 @@ class G:
         if self.repo_name != "r0":
             op["repo"] = self.repo_name
         if who == HUMAN:
-            if pre_ckpt if pre_ckpt is not None else self.human_pre_ckpt:
+            if (pre_ckpt if pre_ckpt is not None else self.human_pre_ckpt) or self.gated("initial_positional"):
                 op["pre_ckpt"] = True
         return op
 
@@ -264,6 +270,35 @@ def fam_rebase(g, kind="plain"):
                             must_abort=(n > 1 and g.gated("rebase_conflict_multi_commit")))
     if g.head() != before:
         g.ex.probe("rebase.rewrote")
+
+
+def fam_rebase_stop(g):
+    """a one-commit rebase that stops (conflict or 'edit') and is finished by a separate
+    --continue, started in the different command-line forms (branch named or checked out)"""
+    rng = g.rng
+    files = g.worktree_files()
+    path = rng.choice(files) if files else None
+    base_branch = g.branch()
+    yield from fam_feature_branch(g, 1, path, rewritten=True)
+    yield g.git("checkout", "-q", base_branch)
+    stop = rng.choice(["conflict", "conflict", "edit"])
+    yield upstream_change(g, "conflict" if stop == "conflict" else rng.choice(["above", "below", "other_file"]), path)
+    yield from g.commit_all()
+    form = rng.choice(["checked_out", "branch_arg", "onto_branch_arg"])
+    g.ex.probe("rebase_stop." + form)
+    env = g.seq_env("edit:0") if stop == "edit" else None
+    extra = ["-i"] if stop == "edit" else []
+    kw = {"env": env, "plan": "edit:0"} if env else {}
+    if form == "checked_out":
+        yield g.git("checkout", "-q", "feat")
+        yield g.git("rebase", *extra, base_branch, rewrite=True, **kw)
+    elif form == "branch_arg":
+        yield g.git("rebase", *extra, base_branch, "feat", rewrite=True, **kw)
+    else:
+        yield g.git("rebase", *extra, "--onto", base_branch, "feat~1", "feat", rewrite=True, **kw)
+    if g.in_progress() == "rebase" and not g.has_conflicts():
+        yield g.git("rebase", "--continue", env={"GIT_EDITOR": "true"}, check=True)
+    yield from resolve_loop(g, ["rebase", "--continue"], ["rebase", "--abort"], allow_abort=False)
 
 
 def fam_cherry_pick(g):
@@ -428,11 +463,190 @@ def fam_plain_commits(g):
         yield from g.commit_all()
 
 
+def fam_destructive(g):
+    """discard-then-rewrite: pending AI work (checkpoints and/or INITIAL left by a partial commit)
+    is thrown away by a destructive command, then a person writes lines at the same places"""
+    rng = g.rng
+    # two files with AI work
+    files = g.worktree_files()
+    while len(files) < 2:
+        yield g.ai_edit(new_file=True)
+        files = g.worktree_files()
+    f1, f2 = rng.sample(files, 2)
+    yield g.ai_edit(path=f1, kinds=["insert", "append", "replace"])
+    yield g.ai_edit(path=f2, kinds=["insert", "append", "replace"])
+    pending = rng.choice(["checkpoints", "initial", "initial"])
+    if pending == "initial":
+        # partial commit: only an unrelated third change, so both files stay pending in INITIAL
+        yield g.edit(HUMAN, new_file=True)
+        third = [f for f in g.worktree_files() if f not in files]
+        if third:
+            yield g.git("add", "--", third[0])
+            yield g.git("commit", "-q", "-m", g.msg(), check=True)
+    if rng.random() < 0.3:
+        yield g.git("branch", "other")
+    cmds = ["checkout_path", "checkout_head_path", "restore", "restore_staged_worktree", "reset_hard",
+            "checkout_f", "switch_discard", "switch_f", "stash_drop", "clean_checkout_dot"]
+    if pending == "initial" and g.gated("initial_outlives_discard"):
+        # known finding: INITIAL is not cleared by restore / stash push / checkout -- .
+        cmds = ["checkout_path", "checkout_head_path", "reset_hard", "checkout_f", "switch_discard", "switch_f"]
+    cmd = rng.choice(cmds)
+    g.ex.probe("destructive." + cmd)
+    if cmd == "checkout_path":
+        yield g.git("checkout", "--", f1, destructive=True)
+    elif cmd == "checkout_head_path":
+        yield g.git("checkout", "HEAD", "--", f1, destructive=True)
+    elif cmd == "restore":
+        yield g.git("restore", f1, destructive=True)
+    elif cmd == "restore_staged_worktree":
+        yield g.git("restore", "--staged", "--worktree", "--source=HEAD", f1, destructive=True)
+    elif cmd == "reset_hard":
+        yield g.git("reset", "-q", "--hard", destructive=True)
+    elif cmd == "checkout_dot" or cmd == "clean_checkout_dot":
+        yield g.git("checkout", "--", ".", destructive=True)
+    elif cmd in ("checkout_f", "switch_discard", "switch_f"):
+        if not g.head("refs/heads/other"):
+            yield g.git("branch", "other")
+        # make the other branch differ from HEAD so that HEAD really moves
+        yield g.git("commit", "-q", "--allow-empty", "-m", g.msg())
+        flag = {"checkout_f": ["checkout", "-q", "-f"], "switch_discard": ["switch", "-q", "--discard-changes"],
+                "switch_f": ["switch", "-q", "-f"]}[cmd]
+        yield g.git(*flag, "other", destructive=True)
+    elif cmd == "stash_drop":
+        yield g.git("stash", "push", "-q")
+        yield g.git("stash", "drop", "-q", destructive=True)
+    # a person now writes at the same places
+    for f in (f1, f2):
+        if g.w.read(g.repo, f) is not None:
+            yield g.human_edit(path=f, kinds=["insert", "insert", "replace", "append"],
+                               pos=rng.choice(["top", "any", "bottom"]), max_block=5,
+                               pre_ckpt=rng.random() < 0.5)
+    yield from g.commit_all()
+
+
+def hunks_between(old, new):
+    """[(old_start, old_end, new_start, new_end)] line-index hunks turning old into new"""
+    import difflib
+    a = (old or "").splitlines(keepends=True)
+    b = (new or "").splitlines(keepends=True)
+    sm = difflib.SequenceMatcher(None, a, b, autojunk=False)
+    return a, b, [(i1, i2, j1, j2) for tag, i1, i2, j1, j2 in sm.get_opcodes() if tag != "equal"]
+
+
+def apply_hunks(a, b, hunks, chosen):
+    out = []
+    pos = 0
+    for k, (i1, i2, j1, j2) in enumerate(hunks):
+        out.extend(a[pos:i1])
+        if k in chosen:
+            out.extend(b[j1:j2])
+        else:
+            out.extend(a[i1:i2])
+        pos = i2
+    out.extend(a[pos:])
+    return "".join(out)
+
+
+def fam_partial_blocks(g):
+    """several separate AI insertion blocks in one file; commit some of the blocks by hunk,
+    leaving two or more pure-insertion hunks uncommitted; then commit the rest"""
+    rng = g.rng
+    files = [f for f in g.worktree_files() if len(split_lines(g.w.read(g.repo, f) or "")) >= 3]
+    if not files:
+        yield g.human_edit(new_file=True)
+        yield from g.commit_all()
+        files = g.worktree_files()
+    f = rng.choice(files)
+    nblocks = rng.randint(3, 5)
+    for b in range(nblocks):
+        who = g.pick_session() if rng.random() < 0.85 else HUMAN
+        yield g.edit(who, path=f, kinds=["insert"], pos=rng.choice(["top", "bottom", "any", "any"]),
+                     max_block=rng.choice([1, 2, 4, 6]))
+    for round_ in range(rng.randint(1, 3)):
+        head = g.w.raw_git(g.repo, "show", ":" + f)
+        old = head.out if head.code == 0 else ""
+        new = g.w.read(g.repo, f)
+        a, b, hunks = hunks_between(old, new)
+        if len(hunks) < 2:
+            break
+        chosen = set(rng.sample(range(len(hunks)), rng.randint(1, max(1, len(hunks) - 2))))
+        if g.gated("partial_unstaged_nonpure_hunk"):
+            chosen |= {k for k, h in enumerate(hunks) if h[0] != h[1]}
+        g.ex.probe("partial.blocks_split")
+        yield {"op": "stage", "path": f, "content": apply_hunks(a, b, hunks, chosen), "dt": g.dt()}
+        yield g.git("commit", "-q", "-m", g.msg(), check=True)
+    yield from g.commit_all()
+
+
+def fam_partial(g):
+    """AI and human changes in several files / hunks, committed in pieces"""
+    rng = g.rng
+    if rng.random() < 0.35:
+        yield from fam_partial_blocks(g)
+        return
+    n_edits = rng.randint(2, 6)
+    for k in range(n_edits):
+        new_file = rng.random() < 0.2
+        if rng.random() < 0.7:
+            yield g.ai_edit(new_file=new_file, kinds=None if not new_file else ["insert"],
+                            pos=rng.choice(["top", "bottom", "any", "any"]))
+        else:
+            yield g.human_edit(new_file=new_file, pos=rng.choice(["top", "bottom", "any"]))
+    for round_ in range(rng.randint(1, 4)):
+        r = g.w.raw_git(g.repo, "status", "--porcelain", "-z")
+        changed = sorted(set(x[3:] for x in r.out.split("\0") if x and len(x) > 3))
+        changed = [c for c in changed if g.w.read(g.repo, c) is not None]
+        if not changed:
+            break
+        how = rng.choice(["files", "files", "commit_path", "hunks", "hunks", "commit_a"])
+        g.ex.probe("partial." + how)
+        if how == "files":
+            for f in rng.sample(changed, rng.randint(1, max(1, len(changed) - 1))):
+                yield g.git("add", "--", f)
+            yield g.git("commit", "-q", "-m", g.msg(), check=True)
+        elif how == "commit_path":
+            f = rng.choice(changed)
+            tracked = g.w.raw_git(g.repo, "ls-files", "--error-unmatch", "--", f).code == 0
+            if not tracked:
+                yield g.git("add", "--", f)
+            yield g.git("commit", "-q", "-m", g.msg(), "--", f, check=True)
+        elif how == "commit_a":
+            yield g.git("commit", "-q", "-a", "-m", g.msg(), check=True)
+        else:
+            f = rng.choice(changed)
+            head = g.w.raw_git(g.repo, "show", ":" + f)
+            old = head.out if head.code == 0 else ""
+            new = g.w.read(g.repo, f)
+            a, b, hunks = hunks_between(old, new)
+            if len(hunks) >= 2:
+                chosen = set(rng.sample(range(len(hunks)), rng.randint(1, len(hunks) - 1)))
+                if g.gated("partial_unstaged_nonpure_hunk"):
+                    # known finding: what stays unstaged must be pure insertions
+                    chosen |= {k for k, h in enumerate(hunks) if h[0] != h[1]}
+                    if len(chosen) == len(hunks):
+                        g.ex.probe("partial.hunk_split_all")
+                g.ex.probe("partial.hunk_split")
+                yield {"op": "stage", "path": f, "content": apply_hunks(a, b, hunks, chosen), "dt": g.dt()}
+            else:
+                yield g.git("add", "--", f)
+            yield g.git("commit", "-q", "-m", g.msg(), check=True)
+        if rng.random() < 0.4:
+            # unrelated work in between
+            if rng.random() < 0.5:
+                yield g.ai_edit(pos=rng.choice(["top", "bottom", "any"]))
+            else:
+                yield g.human_edit(pos=rng.choice(["top", "bottom", "any"]))
+    yield from g.commit_all()
+
+
 FAMILIES = {
+    "destructive": fam_destructive,
+    "partial": fam_partial,
     "commits": fam_plain_commits,
     "rebase": lambda g: fam_rebase(g, "plain"),
     "rebase_onto": lambda g: fam_rebase(g, "onto"),
     "rebase_i": lambda g: fam_rebase(g, "interactive"),
+    "rebase_stop": fam_rebase_stop,
     "cherry_pick": fam_cherry_pick,
     "amend": fam_amend,
     "squash_merge": fam_squash_merge,
